@@ -28,7 +28,7 @@ RULE = (
 )
 ASSUMPTIONS = ["all renames of a case stay inside one history (the top one, or one nested child while the command runs on the parent), default ignore patterns, file contents pairwise distinct", "one rename step per file between two generations"]
 BUDGET = {"quick": (200, 4), "thorough": (36000, 16)}
-REQUIRED = ["multi_rename", "cross_dir_move", "unrelated_new", "second_round", "renamed_back", "other_format", "-n", "new_directory", "altered_after", "nested_child", "hidden_former_name"]
+REQUIRED = ["multi_rename", "cross_dir_move", "unrelated_new", "second_round", "renamed_back", "other_format", "-n", "new_directory", "altered_after", "nested_child", "hidden_former_name", "consecutive_dr_generations", "root_spelled_dot"]
 
 
 @st.composite
@@ -91,7 +91,10 @@ def _scn(draw):
                 newfiles.append(p)
                 cur.append(p)
         rounds.append({"renames": renames, "new": newfiles, "formats": draw(gen.formats(2)), "n": draw(st.integers(0, 3)) == 0, "newdir": newdir and not back, "back": bool(back and renames)})
-    return {"tree": tree, "gens": gens, "rounds": rounds, "alter": draw(st.integers(0, 9)), "child": child}
+    return {"tree": tree, "gens": gens, "rounds": rounds, "alter": draw(st.integers(0, 9)), "child": child,
+            # whether a plain create (without -dr) is run after each -dr generation (two consecutive -dr generations otherwise)
+            "plain_create_between": draw(st.booleans()),
+            "spell": draw(st.sampled_from(["abs", "abs", "slash", "rel", "dot"]))}
 
 
 def strategy(tier):
@@ -143,10 +146,11 @@ def run_case(scn, ctx):
             if not rnd["renames"]:
                 continue
             # twin: same edits, sealed without -dr only in the last round (so earlier rounds stay comparable)
-            last = ri == len(scn["rounds"]) - 1
+            last = ri == max(i for i, r_ in enumerate(scn["rounds"]) if r_["renames"])
             _apply_round(w, rnd)
             flags = ["-dr"] + (["-n"] if rnd["n"] else [])
-            res = w.create("R", rnd["formats"], flags=flags)
+            spell = scn.get("spell", "abs")
+            res = w.create("R", rnd["formats"], flags=flags, spell=spell)
             what = "round %d renames %s new %s: %s" % (ri + 1, rnd["renames"], rnd["new"], res.brief())
             require(res.exc is None, "dr-no-abort", what, res)
             require(res.exit_code == 0, "dr-exit", what + "\n" + res.output[-500:], res)
@@ -167,7 +171,10 @@ def run_case(scn, ctx):
                 if p not in want:
                     require(pv is None, "dr-false-previous", "record %r (not renamed) has previousPath %r (%s)" % (p, pv, what), res)
             for cmd in ("verify", "diff", "create"):
-                r2 = w.create("R", rnd["formats"]) if cmd == "create" else getattr(w, cmd)("R")
+                if cmd == "create" and not scn.get("plain_create_between", True) and not last:
+                    feats.add("consecutive_dr_generations")
+                    continue
+                r2 = w.create("R", rnd["formats"], spell=spell) if cmd == "create" else getattr(w, cmd)("R", spell=spell)
                 require(r2.exc is None and r2.exit_code == 0, "after-" + cmd, "after create -dr (%s): %s\n%s" % (what, r2.brief(), r2.output[-400:]), r2)
             if len(rnd["renames"]) >= 2:
                 feats.add("multi_rename")
@@ -185,6 +192,8 @@ def run_case(scn, ctx):
                 feats.add("new_directory")
             if rnd.get("back"):
                 feats.add("renamed_back")
+            if spell != "abs":
+                feats.add("root_spelled_" + spell)
             if any(posixpath.basename(a).startswith(".") or "/." in a for a, b in rnd["renames"]):
                 feats.add("hidden_former_name")
             # twin world
